@@ -4,6 +4,7 @@ import (
 	"crypto/sha256"
 	"encoding/hex"
 	"fmt"
+	"runtime"
 	"runtime/debug"
 	"sort"
 	"strings"
@@ -65,6 +66,8 @@ func Execute(t *testing.T, sc *Scenario, replay []Decision) *RunResult {
 				res.Leak = fmt.Sprint(r)
 				if !strings.Contains(res.Leak, "deadlock") {
 					res.Leak += "\n" + string(debug.Stack())
+				} else {
+					res.Leak += "\n" + blockedStacks()
 				}
 			}
 		}()
@@ -94,7 +97,12 @@ func Execute(t *testing.T, sc *Scenario, replay []Decision) *RunResult {
 			h.Freeze()
 			w.dead.Store(true)
 			w.Teardown()
-			synctest.Wait()
+			// let every sleeping harness goroutine and every repo timer run out,
+			// so that only genuinely stuck goroutines remain at the end
+			for i := 0; i < 4; i++ {
+				time.Sleep(time.Hour)
+				synctest.Wait()
+			}
 		})
 	}()
 	if res.H != nil {
@@ -179,4 +187,25 @@ func DeriveSeed(base int64, prop string, i int) int64 {
 	}
 	x = splitmix(x ^ uint64(i)*0x100000001b3)
 	return int64(x >> 1)
+}
+
+// blockedStacks returns the stacks of goroutines that belong to a synctest
+// bubble and are still blocked.
+func blockedStacks() string {
+	buf := make([]byte, 1<<20)
+	n := runtime.Stack(buf, true)
+	var keep []string
+	for _, g := range strings.Split(string(buf[:n]), "\n\n") {
+		if strings.Contains(g, "synctest") && !strings.Contains(g, "blockedStacks") {
+			lines := strings.Split(g, "\n")
+			if len(lines) > 14 {
+				lines = lines[:14]
+			}
+			keep = append(keep, strings.Join(lines, "\n"))
+		}
+		if len(keep) >= 6 {
+			break
+		}
+	}
+	return strings.Join(keep, "\n\n")
 }
